@@ -9,7 +9,9 @@ package stateless
 
 //@ func verifyBlock
 //@   props C19
-//@   requires blk != nil && lb != nil && lb.Height >= 1
+//@   modifies nothing
+//@   ensures err == nil ==> BlockBound(blk, lb)
+//@   requires lb != nil && lb.Height >= 1
 //@   ensures err == nil ==> blk.Height == lb.Height
 //@   ensures err == nil ==> blk.Hash == ufr[hash.Hash]("loadHex", uf("headerHash", lb.Header))
 //@   ensures err == nil ==> ufr[time.Time]("timeUTC", blk.Time) == ufr[time.Time]("timeTruncate", ufr[time.Time]("timeUTC", lb.Header.Time), time.Second)
@@ -18,3 +20,131 @@ package stateless
 //@   ensures err == nil ==> uf("cbor.BlockMeta.Header", old(bytesId(blk.Meta))) == uf("headerProtoMarshal.0", ufr[*cmtproto.Header]("headerToProto", lb.Header))
 //@   ensures-local err == nil ==> uf("commitHash", lastCommit) == bytesId(lb.LastCommitHash) && lastCommit == ufr[*cmttypes.Commit]("commitFromProto.0", &lastCommitProto)
 //@   note binds: Height, Hash, Time, StateRoot{Namespace,Version,Type,Hash}, Meta{Header,LastCommit}; unbound: Size (the code says it cannot be verified)
+
+//@ func verifyBlockResults
+//@   props C19
+//@   modifies nothing
+//@   requires lb != nil
+//@   ensures err != nil ==> result0 == nil
+//@   ensures err == nil ==> results.Height == lb.Height
+//@   ensures err == nil ==> result0 == ufr[*api.BlockResultsMeta]("newBlockResultsMeta.0", results)
+//@   ensures err == nil ==> uf("resultsHash", ufr[cmttypes.ABCIResults]("newResults", result0.TxsResults)) == old(bytesId(resultsHash))
+//@   note the per-transaction results are bound to the LastResultsHash of the following header through the results hash
+
+//@ func Core.resultsHash
+//@   trusted
+//@   modifies nothing
+//@   note returns LastResultsHash of the verified light block at height+1
+
+//@ func Core.verifyBlockResults
+//@   props C19
+//@   modifies nothing
+//@   requires c != nil && lb != nil
+//@   ensures err == nil ==> results.Height == lb.Height
+//@   ensures-local err == nil && lastHeight > lb.Height ==> uf("resultsHash", ufr[cmttypes.ABCIResults]("newResults", result0.TxsResults)) == bytesId(resultsHash) && result0 == ufr[*api.BlockResultsMeta]("newBlockResultsMeta.0", results)
+//@   note verification is skipped only for heights that are not below the latest trusted height (the property's "every height below the latest trusted one")
+
+//@ func verifyTransactions
+//@   props C19
+//@   requires lb != nil
+//@   modifies nothing
+//@   defines (err == nil) == ufb("verifyTransactionsAccepts", txs, lb)
+//@   note verifyTransactionsAccepts(txs, lb) names the outcome of this deterministic check; what acceptance entails (hash(Data{txs}) == lb.DataHash) is the ensures-local clause below
+//@   ensures-local err == nil ==> uf("dataHash", &data) == bytesId(lb.DataHash) && len(data.Txs) == len(txs)
+//@   loop 1 invariant len(data.Txs) == idx()
+
+//@ func verifyTransactionProof
+//@   props C19
+//@   requires lb != nil
+//@   modifies nothing
+//@   ensures err == nil ==> ufr[error]("merkleVerifyTx", proof.RawProof, lb.DataHash, uf("cborMarshal", tx)) == nil
+
+//@ func Core.verifyNextValidators
+//@   props C19
+//@   modifies nothing
+//@   requires lb != nil
+//@   ensures err == nil ==> validators.Height == lb.Height + 1
+//@   ensures-local err == nil ==> vs == ufr[*cmttypes.ValidatorSet]("decodeValidators.0", validators) && uf("validatorSetHash", vs) == uf("hexBytes", lb.NextValidatorsHash)
+
+//@ func stateRootFromBlockTxs
+//@   props C19
+//@   ensures err == nil ==> len(txs) > 0 && result0 == MetaRoot(old(bytesId(txs[len(txs)-1])))
+//@   note the state root is taken from the LAST transaction of a list that GetTransactions bound to the header's data hash
+
+//@ func stateRootFromMetaTx
+//@   props C19
+//@   modifies nothing
+//@   ensures-local err == nil ==> tx.Method == consensusAPI.MethodMeta && result0 == meta.StateRoot
+//@   ensures err == nil ==> result0 == MetaRoot(old(bytesId(metaTx)))
+
+// ---- the backend methods: provider data is returned only after the matching verification ----
+
+//@ ghost func MetaRoot(id int) hash.Hash { return ufr[hash.Hash]("cbor.BlockMetadata.StateRoot", uf("cbor.Transaction.Body", uf("cbor.SignedTransaction.Signed.Blob", id))) }
+//@ ghost func BlockBound(blk *consensusAPI.Block, lb *cmttypes.LightBlock) bool { return blk.Height == lb.Height && blk.Hash == ufr[hash.Hash]("loadHex", uf("headerHash", lb.Header)) && blk.StateRoot.Version == uint64(lb.Height) - 1 && blk.StateRoot.Type == mkvsNode.RootTypeState && bytesId(blk.StateRoot.Hash[:]) == bytesId(lb.Header.AppHash) }
+//@ import consensusAPI "github.com/oasisprotocol/oasis-core/go/consensus/api"
+//@ import cmttypes "github.com/cometbft/cometbft/types"
+//@ import "github.com/oasisprotocol/oasis-core/go/common/crypto/hash"
+//@ import mkvsNode "github.com/oasisprotocol/oasis-core/go/storage/mkvs/node"
+
+//@ func Core.lightBlock
+//@   trusted
+//@   modifies nothing
+//@   note frame: writes only the light client's private store, which no verified function reads except through further opaque calls
+//@   ensures err != nil ==> result0 == nil
+//@   ensures err == nil ==> result0 != nil && result0.SignedHeader != nil && result0.Header != nil && result0.Height >= 1 && ufb("lightClientVerified", c, result0)
+//@   ensures err == nil && height > 0 ==> result0.Height == height
+//@   note returns only light blocks verified by the CometBFT light client (VerifyLightBlockAt) at the resolved height; the light client itself is out of scope
+
+//@ func Core.GetBlock
+//@   props C19
+//@   requires c != nil
+//@   ensures err != nil ==> result0 == nil
+//@   ensures-local err == nil ==> result0 == blk && ufb("lightClientVerified", c, lb) && BlockBound(blk, lb)
+
+//@ func Core.GetBlockResults
+//@   props C19
+//@   requires c != nil
+//@   ensures err != nil ==> result0 == nil
+//@   ensures-local err == nil ==> result0 == results && ufb("lightClientVerified", c, lb) && results.Height == lb.Height
+
+//@ func Core.GetTransactions
+//@   props C19
+//@   requires c != nil
+//@   ensures err != nil ==> len(result0) == 0
+//@   ensures-local err == nil ==> ufb("lightClientVerified", c, lb) && ufb("verifyTransactionsAccepts", txs, lb)
+
+//@ func Core.verifyParameters
+//@   props C19
+//@   modifies nothing
+//@   requires c != nil && lb != nil
+//@   ensures err == nil ==> params.Height == lb.Height
+//@   ensures-local err == nil ==> uf("paramsHash", &cmtparams) == bytesId(lb.ConsensusHash)
+//@   ensures-local err == nil ==> uf("cborMarshal", parameters) == uf("cborMarshal", params.Parameters)
+//@   note the CometBFT parameters (Meta) are bound to the header's ConsensusHash; the Oasis parameters are compared with the ones read from verified state
+
+//@ func Core.GetParameters
+//@   props C19
+//@   requires c != nil
+//@   ensures err != nil ==> result0 == nil
+//@   ensures-local err == nil ==> result0 == params && ufb("lightClientVerified", c, lb) && params.Height == lb.Height
+
+//@ func Core.GetValidators
+//@   props C19
+//@   requires c != nil
+//@   ensures-local err == nil && defined(validators) ==> result0 == validators && ufb("lightClientVerified", c, lb) && validators.Height == lb.Height + 1 && validators.Height == height
+//@   note first path: validators come from the verified light block itself; second path: provider data checked against NextValidatorsHash of the previous verified light block
+
+//@ func Core.SubmitTxWithProof
+//@   props C19
+//@   requires c != nil
+//@   ensures-local err == nil ==> result0 == proof && ufb("lightClientVerified", c, lb) && ufr[error]("merkleVerifyTx", proof.RawProof, lb.DataHash, uf("cborMarshal", tx)) == nil
+
+//@ func Core.GetTransactionsWithProofs
+//@   props C19
+//@   requires c != nil
+//@   ensures err != nil ==> result0 == nil
+
+//@ func Core.fetchStateRootFromMetaTx
+//@   props C19
+//@   requires c != nil
+//@   note the state root is read from the last transaction of a list accepted by verifyTransactions (via GetTransactions)
